@@ -35,9 +35,11 @@ Definition run (en : entry) (ad : admission) (cfg : scfg) (ops : list (list hop)
            (cs : list bytes) (t : tail) : list event :=
   serve_conn the_framer cfg (mk_env ops xst stop) en ad {| buf := []; chunks := cs; tl := t |}.
 
-Definition run_gone (en : entry) (ad : admission) (cfg : scfg) (ops : list (list hop)) (gone : option N)
+Definition run_full (en : entry) (ad : admission) (cfg : scfg) (ops : list (list hop)) (xst : list Z) (stop gone : option N)
            (cs : list bytes) (t : tail) : list event :=
-  serve_conn the_framer cfg (mk_env_gone ops [] None gone) en ad {| buf := []; chunks := cs; tl := t |}.
+  serve_conn the_framer cfg (mk_env_gone ops xst stop gone) en ad {| buf := []; chunks := cs; tl := t |}.
+Definition run_gone (en : entry) (ad : admission) (cfg : scfg) (ops : list (list hop)) (gone : option N)
+           (cs : list bytes) (t : tail) : list event := run_full en ad cfg ops [] None gone cs t.
 
 (* ---- projections ---- *)
 Definition state_eqb (a b : conn_state) : bool :=
